@@ -130,6 +130,8 @@ MUTANTS = [
     M('parser:do_bump:pos-by-one', 'parser', ['C02'], "Parser<'t>::do_bump", 'self.pos += n_raw_tokens as usize;', 'self.pos += 1;'),
     M('parser:bump_any:empty-token-event', 'parser', ['C02'], "Parser<'t>::bump_any", 'self.do_bump(kind, 1);', 'self.do_bump(kind, 0);'),
     M('parser:parse:events-not-processed', 'parser', ['C02'], 'TopEntryPoint::parse', 'let res = event::process(events);', 'let res = event::process(Vec::new());'),
+    M('parser:process:tombstone-entered', 'parser', ['C02'], 'process', 'if kind != TOMBSTONE {', 'if true {'),
+    M('parser:complete:two-finish-events', 'parser', ['C02', 'C01'], 'Marker::complete', 'p.push_event(Event::Finish);', 'p.push_event(Event::Finish); p.push_event(Event::Finish);'),
     # ---- LEX extents
     M('lex:line_comment:stops-at-space', 'lex', ['C15', 'C14'], "Cursor<'_>::line_comment", "{ c != '\\n' });", "{ c != '\\n' && c != ' ' });"),
     M('lex:eat_identifier:start-test-inverted', 'lex', ['C15'], "Cursor<'_>::eat_identifier", 'if !is_id_start(self.first()) {', 'if is_id_start(self.first()) {'),
